@@ -292,6 +292,27 @@ def reset_events(b):
                 if fields and fields[-1] == TXS + "aborted" and st["r"]["k"] == "use" and op_is_const(st["r"]["o"]) and st["r"]["o"]["c"] == "false":
                     abort.add(i)
         t = bb["t"]
+        # the whole state at once: `*tx = TransactionState::default()`, `mem::take(&mut
+        # conn.transaction_state)` / `mem::replace(.., Default::default())` reset every part
+        TSTY = TXS[:-1]
+        whole = False
+        if t["k"] == "call":
+            f_ = t["f"] or ""
+            if re.search(r"^std::mem::(take|replace)::<%s>$" % re.escape(TSTY), f_):
+                whole = True
+            if re.search(r"^<%s as std::default::Default>::default$" % re.escape(TSTY), f_) or callee(t) == TSTY + "::default" or callee(t) == TSTY + "::new":
+                d_ = t["d"]
+                if d_["p"] and (d_["p"][-1] == "*" or (isinstance(d_["p"][-1], dict) and str(d_["p"][-1].get("f", "")).endswith("Connection.transaction_state"))):
+                    whole = True
+                else:
+                    # stored through a temporary: `_t = default(); *tx = move _t`
+                    for x2, bb2 in enumerate(b.bbs):
+                        for st2 in bb2["s"]:
+                            if st2["k"] == "=" and st2["r"]["k"] == "use" and not op_is_const(st2["r"]["o"]) and op_place(st2["r"]["o"])["l"] == d_["l"] and not op_place(st2["r"]["o"])["p"] and st2["l"]["p"] and \
+                               (st2["l"]["p"][-1] == "*" or (isinstance(st2["l"]["p"][-1], dict) and str(st2["l"]["p"][-1].get("f", "")).endswith("Connection.transaction_state"))):
+                                store.add(x2); qclear.add(x2); wclear.add(x2); abort.add(x2)
+        if whole:
+            store.add(i); qclear.add(i); wclear.add(i); abort.add(i)
         if t["k"] == "call" and t["a"]:
             P = prov.operand_origins(b, t["a"][0]) if not op_is_const(t["a"][0]) else None
             if P is None:
@@ -318,6 +339,54 @@ def is_reset_body(b):
     return True
 
 
+def _not_in_tx_blocks(b):
+    """blocks behind the `not in a transaction` edge of a test of the in_transaction field"""
+    out = set()
+    for x, bb in enumerate(b.bbs):
+        t = bb["t"]
+        if t["k"] != "switch" or op_is_const(t["d"]):
+            continue
+        pl = op_place(t["d"]); l = pl["l"]; neg = False
+        direct = any(isinstance(e, dict) and e.get("f") == TXS + "in_transaction" for e in pl["p"])
+        for st in bb["s"]:
+            if st["k"] == "=" and st["l"]["l"] == l and not st["l"]["p"]:
+                r = st["r"]
+                if r["k"] == "un" and r.get("op") == "Not" and not op_is_const(r["o"]):
+                    src = op_place(r["o"]); neg = True
+                elif r["k"] == "use" and not op_is_const(r["o"]):
+                    src = op_place(r["o"])
+                else:
+                    continue
+                if any(isinstance(e, dict) and e.get("f") == TXS + "in_transaction" for e in src["p"]):
+                    direct = True
+                else:
+                    for st2 in bb["s"]:
+                        if st2["k"] == "=" and st2["l"]["l"] == src["l"] and st2["r"]["k"] == "use" and not op_is_const(st2["r"]["o"]) and any(isinstance(e, dict) and e.get("f") == TXS + "in_transaction" for e in op_place(st2["r"]["o"])["p"]):
+                            direct = True
+        if not direct:
+            continue
+        zero = dict(t["ts"]).get(0)
+        tgt = t["o"] if neg else zero
+        if tgt is not None and not (neg and zero == t["o"]):
+            out |= cfg.edge_dom_set(b, x, tgt) | {tgt}
+    return out
+
+
+def is_reset_when_open(b):
+    """b resets the whole state on every exit except those taken when no transaction is open
+    (`TransactionState::take_open`: None for a closed one, `mem::take` otherwise)"""
+    store, qclear, wclear, _ = reset_events(b)
+    if not (store and qclear and wclear):
+        return False
+    notx = _not_in_tx_blocks(b)
+    if not notx:
+        return False
+    for part in (store, qclear, wclear):
+        if cfg.path_avoiding(b, [0], b.exits(), set(part) | notx) is not None:
+            return False
+    return True
+
+
 def rule_reset(ctx, R):
     b = ctx.prog.need(HE)
     resets = set()
@@ -327,13 +396,16 @@ def rule_reset(ctx, R):
             cb = ctx.prog.bodies.get(cl)
             if cb is None:
                 continue
-            if is_reset_body(cb):
+            if is_reset_body(cb) or is_reset_when_open(cb):
                 resets.add(i)
             # extraction closure: reads in_transaction and can return None
             if any(isinstance(e, dict) and e.get("f") == TXS + "in_transaction" for bb in cb.bbs for st in bb["s"] if st["k"] == "=" and st["r"]["k"] in ("use",) and op_place(st["r"]["o"]) for e in op_place(st["r"]["o"])["p"]) or \
                any(bb["t"]["k"] == "switch" and op_place(bb["t"]["d"]) and any(isinstance(e, dict) and e.get("f") == TXS + "in_transaction" for e in op_place(bb["t"]["d"])["p"]) for bb in cb.bbs):
                 if not is_reset_body(cb):
                     extract_calls.append(i)
+    # an extraction that also resets (take the state if open) is followed by no later access:
+    # its not-in-transaction arm is simply what follows its None result
+    merged = [i for i in extract_calls if i in resets]
     R.floor("reset_closure_calls", len(resets))
     # "EXEC without MULTI": the blocks reachable from the extraction call that can neither reach
     # nor be reached from a later connection access -- the arm that answers the error
@@ -912,4 +984,13 @@ def rule_rewatch(ctx, R):
             if not guarded:
                 R.finding(fn, "watch-insert:overwrites-baseline",
                           "%s stores the baseline of a watched key with HashMap::insert (line %d) and no `already watched` test: a second WATCH of the same key replaces the first baseline, so a modification made between the two is forgotten (WATCH k; another client SET k; WATCH k; MULTI; EXEC runs)" % (fn.split("::")[-1], b.bb_line(i)), b.loc(i))
+        # the entry API never replaces an occupied entry: `entry(k)` + `Vacant(e) => e.insert(..)`
+        # / `or_insert_with(..)` are insertions that keep the first baseline by construction
+        for i, t in b.calls():
+            f = t["f"] or ""
+            if b.bbs[i]["cleanup"] or not re.search(r"hash_map::(VacantEntry|Entry)(::)?<.*>::(insert|or_insert|or_insert_with|or_insert_with_key|insert_entry)(::<.*>)?$", f) or not t["a"] or op_is_const(t["a"][0]):
+                continue
+            if any(x.endswith("TransactionState.watched_keys") for x in prov.operand_origins(b, t["a"][0], deep=True).fields):
+                n += 1
+                R.inst(fn, "watch-insert", {"function": fn, "at": b.loc(i), "under_a_not_yet_watched_test": True, "form": "entry API (vacant only)"})
     R.floor("watch_set_insertions", n)
